@@ -174,18 +174,20 @@ fn encoder_history(rng: &mut Rng, out: &mut CaseOut) {
             let short = rng.chance(1, 10);
             let n_add = if short { rng.below(k) } else { k };
             let probes = [0usize, r - 1, r];
+            // one round in eight passes some shards as values whose as_ref()
+            // changes between calls (the same values to both objects)
+            let shifty = if rng.chance(1, 8) { Some(rng.next_u64()) } else { None };
+            if shifty.is_some() {
+                out.tag("shifty-asref-shards");
+            }
             let on_reused: Result<EncObs, Error> = (|| {
-                for o in &originals[..n_add] {
-                    e.add(o)?;
-                }
+                codec::add_all(e.as_mut(), &originals[..n_add], shifty)?;
                 e.encode_obs(&probes)
             })();
             set_poison(false, rng);
             let on_fresh: Result<EncObs, Error> = (|| {
                 let mut f = codec::make_enc(api, k, r, size, None)?;
-                for o in &originals[..n_add] {
-                    f.add(o)?;
-                }
+                codec::add_all(f.as_mut(), &originals[..n_add], shifty)?;
                 f.encode_obs(&probes)
             })();
             out.evals += 1;
@@ -398,10 +400,14 @@ fn decoder_history(rng: &mut Rng, out: &mut CaseOut) {
             let order = gen::add_order(rng, &orig_idx, &rec_idx, true);
             let probes = [0usize, k - 1, k];
             set_poison(poisoned, rng);
-            let on_reused = codec::decode_round(d.as_mut(), &order, &originals, &recovery, &probes);
+            let shifty = if rng.chance(1, 8) { Some(rng.next_u64()) } else { None };
+            if shifty.is_some() {
+                out.tag("shifty-asref-shards");
+            }
+            let on_reused = codec::decode_round_with(d.as_mut(), &order, &originals, &recovery, &probes, shifty);
             set_poison(false, rng);
             let on_fresh: Result<DecObs, Error> = codec::make_dec(api, k, r, size, None)
-                .and_then(|mut f| codec::decode_round(f.as_mut(), &order, &originals, &recovery, &probes));
+                .and_then(|mut f| codec::decode_round_with(f.as_mut(), &order, &originals, &recovery, &probes, shifty));
             out.evals += 1;
             let desc = format!(
                 "round {round} k={k} r={r} size={size} api={} poisoned={poisoned} given={}+{} shape={shape}",
